@@ -133,6 +133,13 @@ structure ConnSt where
   hiddenLog : List Nat := []    -- stream ids of the buffered frames (reversed)
   inbuf : List UInt8 := []      -- bytes the reader has received that do not yet form a whole frame
   eof : Bool := false
+  users : List Nat := []        -- request ids of the test's own requests, newest first
+  bodies : List (Nat × String) := []  -- request id ↦ tag of the body of the raw (`b`) frame that answered it
+  -- the keepaliver (`keepalive_interval`, `keepalive_timeout` in ms), under a virtual clock
+  ka : Option (Nat × Nat) := none
+  clock : Nat := 0
+  kaNext : Nat := 0             -- when `interval.tick()` completes next
+  kaPending : Option (Nat × Nat) := none   -- (request id, deadline) of the keep-alive request in flight
 
 /-- `n` × `writerTake`, logging the stream ids written. -/
 def takeN : Nat → ConnSt → ConnSt
@@ -152,18 +159,53 @@ def orphanN : Nat → Conn → Conn
   | 0, c => c
   | n + 1, c => orphanN n (step c .orphanerStep)
 
-/-- Run the router until it is idle. -/
-def settle (st : ConnSt) : ConnSt :=
+/-- One turn of the keepaliver task (`keepaliver`, 1788-1865): its request is an ordinary `send_request`. -/
+def kaTurn (st : ConnSt) : ConnSt :=
+  match st.ka with
+  | none => st
+  | some (interval, timeout) =>
+    if st.c.broken then st else
+    match st.kaPending with
+    | some (r, deadline) =>
+      match getCaller st.c.callers r with
+      | some (.delivered (.frame _)) => { st with c := step st.c (.recv r), kaPending := none }
+      | some (.delivered (.err _)) =>
+        { st with c := step (step st.c (.recv r)) (.break_ .keepaliveRequestError), kaPending := none }
+      | _ =>
+        if st.clock ≥ deadline then
+          -- `tokio::time::timeout` fires: the request future is dropped, the router ends
+          { st with c := step (step st.c (.cancel r)) (.break_ .keepaliveTimeout), kaPending := none }
+        else st
+    | none =>
+      if st.clock ≥ st.kaNext then
+        let r := st.c.nextReq
+        -- `MissedTickBehavior::Delay`: a tick more than 5 ms late re-bases the schedule
+        let next := if st.clock > st.kaNext + 5 then st.clock + interval else st.kaNext + interval
+        { st with c := step st.c .submit, kaPending := some (r, st.clock + timeout), kaNext := next }
+      else st
+
+def routerTurn (st : ConnSt) : ConnSt :=
+  let st := kaTurn st
   let st1 :=
     if st.blocked || st.c.queue.isEmpty then st else
     let st' := takeN st.c.queue.length st
     if st.gateClosed then { st' with blocked := true } else st'
   { st1 with c := orphanN st1.c.notices.length st1.c }
 
+/-- Run the router until it is idle. -/
+def settle (st : ConnSt) : ConnSt := routerTurn (routerTurn (routerTurn st))
+
 /-- Index of the (unique) outstanding entry with stream `s` among the entries the server has seen. -/
 def visibleIdx (st : ConnSt) (s : Nat) : Option Nat :=
   let vis := st.c.server.take (st.c.server.length - st.hidden)
   vis.findIdx? (fun p => p.1 == s)
+
+/-- How the harness prints a response body: 8 bytes = a request tag (big-endian u64). -/
+def tagStr (body : List UInt8) : String :=
+  if body.length == 8 then
+    let v := body.foldl (fun acc b => acc * 256 + b.toNat) 0
+    if v == 18446744073709551615 then "unsolicited" else toString v
+  else "?" ++ toHex body
 
 /-- The reader consumes whole frames from `inbuf` (after `bytes` arrived). -/
 def readerLoop : Nat → ConnSt → ConnSt
@@ -177,7 +219,11 @@ def readerLoop : Nat → ConnSt → ConnSt
       else
         let s := f.stream.toNat
         match visibleIdx st s with
-        | some i => readerLoop fuel { st with c := step st.c (.respond i) }
+        | some i =>
+          let bodies := match st.c.server[i]? with
+            | some (_, r) => (r, tagStr f.body) :: st.bodies
+            | none => st.bodies
+          readerLoop fuel { st with c := step st.c (.respond i), bodies := bodies }
         | none => readerLoop fuel { st with c := step st.c (.unsolicited s) }
     | .bad _ => { st with c := step st.c (.break_ .frameHeaderParseError) }
     | .cutInHeader _ | .cutInBody _ _ =>
@@ -190,18 +236,21 @@ def openGate (st : ConnSt) : ConnSt :=
   let srv := if st.c.broken then st.srv else st.hiddenLog ++ st.srv
   settle { st with gateClosed := false, blocked := false, hidden := 0, hiddenLog := [], srv := srv }
 
+def userReq (st : ConnSt) (k : Nat) : Option Nat := st.users.reverse[k]?
+
 def connOp (st : ConnSt) (op : String) : Option ConnSt :=
   match splitOp op with
   | none => none
   | some (c, arg) =>
     let noArg (r : ConnSt) : Option ConnSt := if arg == "" then some r else none
-    if c == 's' then noArg (settle { st with c := step st.c .submit })
+    if c == 's' then noArg (settle { st with c := step st.c .submit, users := st.c.nextReq :: st.users })
     else if c == 'S' then
       let r := st.c.nextReq
-      noArg (settle { st with c := step (step st.c .submit) (.cancel r) })
+      noArg (settle { st with c := step (step st.c .submit) (.cancel r), users := r :: st.users })
     else if c == 'g' then noArg { st with gateClosed := true }
     else if c == 'G' then noArg (openGate st)
     else if c == 'x' then
+      if st.eof then noArg st else
       noArg (settle (readerLoop 1 { st with eof := true }))
     else if c == 'b' then
       match parseHex arg with
@@ -219,44 +268,79 @@ def connOp (st : ConnSt) (op : String) : Option ConnSt :=
         let s := s.toNat
         if st.eof || !st.inbuf.isEmpty then some st else
         if (visibleIdx st s).isSome then some st else
-        if st.gateClosed && s < st.c.nextReq then some st else
+        if st.gateClosed && s < 1000 then some st else
         some (settle { st with c := step st.c (.unsolicited s) })
     else
     match arg.toNat? with
     | none => none
     | some n =>
-      if c == 'c' then some (settle { st with c := step st.c (.cancel n) })
-      else if c == 'p' then some (settle { st with c := step st.c (.recv n) })
+      if c == 'c' then
+        match userReq st n with
+        | some r => some (settle { st with c := step st.c (.cancel r) })
+        | none => some st
+      else if c == 'p' then
+        match userReq st n with
+        | some r => some (settle { st with c := step st.c (.recv r) })
+        | none => some st
       else if c == 'r' then
         if st.eof || !st.inbuf.isEmpty then some st else
         if n < st.c.server.length - st.hidden then some (settle { st with c := step st.c (.respond n) })
         else some st
+      else if c == 't' then some (settle { st with clock := st.clock + n })
       else none
 
-def recvAll : Nat → Conn → Conn
-  | 0, c => c
-  | n + 1, c => step (recvAll n c) (.recv n)
+def recvAll : List Nat → Conn → Conn
+  | [], c => c
+  | r :: rest, c => recvAll rest (step c (.recv r))
+
+def userOutcome (st : ConnSt) : Outcome → String
+  | .frame f =>
+    if f == unsolicitedMarker then "ok:unsolicited" else
+    match st.bodies.find? (fun p => p.1 == f) with
+    | some (_, tag) => "ok:" ++ tag
+    | none =>
+    match st.users.reverse.idxOf? f with
+    | some k => s!"ok:{k}"
+    | none => "ok:foreign"
+  | .err e => "err:" ++ errLabel e
+
+def userCallerStr (st : ConnSt) : Option CallerSt → String
+  | none => "none"
+  | some .waiting => "pending"
+  | some (.delivered o) => "delivered:" ++ userOutcome st o
+  | some (.done o) => userOutcome st o
+  | some .abandoned => "cancelled"
 
 def connLine (st : ConnSt) : String :=
   let st := if st.gateClosed then openGate st else settle st
-  let c := recvAll st.c.nextReq st.c
-  let callers := (List.range c.nextReq).map fun r => s!"{r}={callerStr (getCaller c.callers r)}"
+  let c := recvAll st.users st.c
+  let users := st.users.reverse
+  let callers := (List.range users.length).map fun k =>
+    s!"{k}={userCallerStr st (getCaller c.callers (users.getD k 0))}"
   let cs := if callers.isEmpty then "-" else " ".intercalate callers
   let cause := match c.cause with
     | none => "-"
     | some k => breakLabel k
   s!"{cs} | srv={natList st.srv.reverse} | broken={cause}"
 
-def runConn (ops : List String) : String :=
+def runConnFrom (st0 : ConnSt) (ops : List String) : String :=
   let rec go : List String → ConnSt → Option ConnSt
     | [], st => some st
     | op :: rest, st =>
       match connOp st op with
       | none => none
       | some st' => go rest st'
-  match go ops { c := Conn.init } with
+  match go ops st0 with
   | none => "bad-case"
   | some st => connLine st
+
+def runConn (ops : List String) : String := runConnFrom { c := Conn.init } ops
+
+/-- Keep-alive enabled: the first tick completes one interval after the start. The schedule ends with a silent
+stall of the server, longer than interval + timeout (in steps of 100 ms of virtual time). -/
+def runConnKa (interval timeout : Nat) (ops : List String) : String :=
+  runConnFrom { c := Conn.init, ka := some (interval, timeout), kaNext := interval }
+    (ops ++ List.replicate ((interval + timeout) / 100 + 3) "t100")
 
 def splitOps (s : String) : List String := (s.splitOn ";").filter (· ≠ "")
 
